@@ -26,7 +26,7 @@ MdMerge(a, b) == {e \in a : ~\E f \in b : f[1] = e[1]} \cup b
 ReplaceOtherFlags(res, oth) ==
     [res EXCEPT !.safe  = IF oth.safe # "N" THEN AndTri(NotNoneOr(res.safe, "T"), oth.safe) ELSE @,
                 !.dsafe = IF DefaultSafeOverwrite THEN oth.dsafe ELSE AndTri(res.dsafe, oth.dsafe),
-                !.md    = MdMerge(oth.md, res.md)]
+                !.md    = IF Mut("MdSpreadSwapped") THEN MdMerge(res.md, oth.md) ELSE MdMerge(oth.md, res.md)]
 
 \* node.py:428-446: `res` stays the result object but takes `oth`'s look
 ReplaceSelfFlags(res, oth) ==
